@@ -102,6 +102,7 @@ def oracle(stream, cid, ops, outs):
     count = {}            # (packet idx, frag) -> transmissions
     first_tick = {}       # packet idx -> tick of first transmission
     base_passed = {}      # packet idx -> tick at which the window base was seen past it
+    reported = {}         # packet idx -> tick at which an ack frame of the (honest) receiver reporting a window base past it was handled by A
     carried = {}          # A frame id -> [(packet idx, frag)]
     acked_at = {}         # (packet idx, frag) -> tick at which an acknowledgement naming a frame that carried it was surely accepted
     bframes = []          # B's emitted frames in order
@@ -153,6 +154,11 @@ def oracle(stream, cid, ops, outs):
                         fails.append({"oracle": "no_send_after_window_passed", "detail": "fragment %d of packet #%d (mode %d) transmitted at tick %d after the window base moved past it at tick %d" %
                                       (k, j, p.mode, tick, base_passed[j]), "signature": {"oracle": "no_send_after_window_passed"}})
                         return fails
+                    if j in reported and tick > reported[j]:
+                        fails.append({"oracle": "no_send_after_receiver_passed", "detail": "fragment %d of packet #%d (mode %d, wire id %d) transmitted at tick %d although an acknowledgement frame "
+                                      "reporting the receiver's window base past it was handled at tick %d" % (k, j, p.mode, d["seq"], tick, reported[j]),
+                                      "signature": {"oracle": "no_send_after_receiver_passed"}})
+                        return fails
                     if p.mode in (0, 1) and count[(j, k)] > 1:
                         fails.append({"oracle": "at_most_once", "detail": "fragment %d of %s packet #%d transmitted %d times" %
                                       (k, "TimeSensitive" if p.mode == 0 else "Unreliable", j, count[(j, k)]), "signature": {"oracle": "at_most_once", "mode": p.mode}})
@@ -168,6 +174,12 @@ def oracle(stream, cid, ops, outs):
             bframes.extend(gen_hc.parse_frames(o))
         elif t[0] == "fwd" and t[1] == "B" and len(t) == 4 and o == "ok":
             f = bframes[int(t[2])] if int(t[2]) < len(bframes) else None
+            if f and f["kind"] == "A":
+                # the receiver's own report (these streams forge no frames): every packet A has put on the wire whose id lies
+                # behind the reported base has been passed by the receiver's window
+                for sq, j in seq_idx.items():
+                    if j not in reported and ((f["pbase"] - sq - 1) % (1 << 20)) < (1 << 19):
+                        reported[j] = tick
             if f and f["kind"] == "A" and log_base is not None and probe_tick == tick - 1:
                 for (gb, bits, nonce) in f["groups"]:
                     size = bits.bit_length()
